@@ -37,6 +37,7 @@ type Solver struct {
 	Queries int
 	Time    time.Duration
 	Errors  []string
+	UnknownReasons []string
 	argv    []string
 	dump    io.Writer // optional transcript
 	lastHadPush bool
@@ -229,6 +230,11 @@ func (s *Solver) Check(ts *TermStore, extra ...*Term) SatResult {
 	}
 	if bad {
 		res = Unknown
+	}
+	if res == Unknown && !bad && len(s.UnknownReasons) < 20 {
+		// why did the solver give up (timeout, incomplete theory, resource limit)? kept for the evidence
+		s.send("(get-info :reason-unknown)")
+		s.UnknownReasons = append(s.UnknownReasons, strings.Join(s.sync(), " ")+fmt.Sprintf(" after %.1fs", time.Since(t0).Seconds()))
 	}
 	s.lastHadPush = len(extra) > 0
 	return res
